@@ -1,4 +1,6 @@
 import IstioModel.C20.NatOutput
+import IstioModel.C20.NatPrerouting
+import IstioModel.C20.Fate
 
 /-!
 C20 - the property theorems.
@@ -231,5 +233,176 @@ theorem multi_identity_shadow (c : Config) (p : Packet) (d : Nat) (h : famOn c p
     evalTable (d + 2) (rulesOf c p.fam) .nat .output p = .accept p := by
   rw [nat_output_correct c p d h]
   simp [natOutputSpec, hearly.1, hearly.2.1, hearly.2.2, hids, identityWalk, hfirst, hb]
+
+/-! ## inbound_exact (REDIRECT mode) -/
+
+/-- **Compiler correctness, nat table, PREROUTING hook**: REDIRECT-mode inbound capture and the
+    kube-virt interfaces, for every configuration and packet. -/
+theorem nat_prerouting_eq_spec (c : Config) (p : Packet) (d : Nat) (h : famOn c p.fam = true) :
+    evalTable (d + 2) (rulesOf c p.fam) .nat .prerouting p = natPreroutingSpec c p :=
+  nat_prerouting_correct c p d h
+
+/-- **inbound_exact.** In REDIRECT mode a packet arriving on an ordinary interface is redirected to the
+    inbound capture port IF AND ONLY IF it is TCP, its interface is not excluded, its destination port is
+    not the tunnel port and is selected: with `*` every port except the excluded ones, with an explicit
+    list exactly the listed ports. Otherwise it is left alone. -/
+theorem inbound_exact (c : Config) (p : Packet) (d : Nat) (h : famOn c p.fam = true)
+    (hmode : c.tproxy = false) (hkv : kubeVirt c p = false) :
+    evalTable (d + 2) (rulesOf c p.fam) .nat .prerouting p =
+      if inboundCaptured c p then .redirect c.inboundCapturePort else .accept p := by
+  rw [nat_prerouting_correct c p d h]
+  simp [natPreroutingSpec, hkv, hmode]
+
+theorem inbound_exact_iff (c : Config) (p : Packet) (d : Nat) (h : famOn c p.fam = true)
+    (hmode : c.tproxy = false) (hkv : kubeVirt c p = false) :
+    evalTable (d + 2) (rulesOf c p.fam) .nat .prerouting p = .redirect c.inboundCapturePort ↔
+      (p.proto = .tcp ∧ c.exclIfs.contains p.inIf = false ∧ p.dport ≠ c.inboundTunnelPort ∧
+        (match c.inboundInclude with
+         | .none => False
+         | .all => c.inboundExclude.contains p.dport = false
+         | .ports l => l.contains p.dport = true)) := by
+  rw [inbound_exact c p d h hmode hkv]
+  unfold inboundCaptured inboundPortCaptured isTcp inIfExcluded
+  cases hi : c.inboundInclude <;> by_cases h1 : p.proto = .tcp <;> by_cases h2 : p.dport = c.inboundTunnelPort <;>
+    simp [h1, h2] <;> split <;> simp_all
+
+/-- Observation (documented behaviour of the flag, not a defect): with an explicit include list the
+    excluded inbound ports are not consulted - a port that is both listed and "excluded" IS captured. -/
+theorem inbound_exclude_ignored_with_list (c : Config) (p : Packet) (d : Nat) (h : famOn c p.fam = true)
+    (hmode : c.tproxy = false) (hkv : kubeVirt c p = false) (l : List Nat) (hl : c.inboundInclude = .ports l)
+    (hin : l.contains p.dport = true) (htcp : p.proto = .tcp) (hif : c.exclIfs.contains p.inIf = false)
+    (ht : p.dport ≠ c.inboundTunnelPort) :
+    evalTable (d + 2) (rulesOf c p.fam) .nat .prerouting p = .redirect c.inboundCapturePort := by
+  rw [inbound_exact_iff c p d h hmode hkv]
+  refine ⟨htcp, hif, ht, ?_⟩
+  simp only [hl]
+  exact hin
+
+/-- In TPROXY mode the nat table redirects nothing inbound (capture happens in mangle). -/
+theorem nat_prerouting_tproxy (c : Config) (p : Packet) (d : Nat) (h : famOn c p.fam = true)
+    (hmode : c.tproxy = true) (hkv : kubeVirt c p = false) :
+    evalTable (d + 2) (rulesOf c p.fam) .nat .prerouting p = .accept p := by
+  rw [nat_prerouting_correct c p d h]
+  simp [natPreroutingSpec, hkv, hmode]
+
+/-- Traffic arriving on a KUBE_VIRT_INTERFACES interface is treated as outbound: redirected to the
+    outbound port iff TCP with an included destination, otherwise left alone. -/
+theorem kube_virt_exact (c : Config) (p : Packet) (d : Nat) (h : famOn c p.fam = true)
+    (hkv : kubeVirt c p = true) :
+    evalTable (d + 2) (rulesOf c p.fam) .nat .prerouting p =
+      if isTcp p && dstIncluded c p then .redirect c.proxyPort else .accept p := by
+  rw [nat_prerouting_correct c p d h]
+  simp [natPreroutingSpec, hkv]
+
+/-! ## The tables around nat, and the whole hook -/
+
+/-- The raw table (DNS conntrack zones) never decides or changes a packet. -/
+theorem raw_table_inert (c : Config) (f : Fam) (h : Hook) (p : Packet) (d : Nat) :
+    evalTable (d + 1) (rulesOf c f) .raw h p = .accept p :=
+  raw_accepts c f h p d
+
+/-- **Compiler correctness, mangle table, OUTPUT hook** (TPROXY-mode re-marking; nothing in REDIRECT mode). -/
+theorem mangle_output_eq_spec (c : Config) (p : Packet) (d : Nat) (h : famOn c p.fam = true) :
+    evalTable (d + 1) (rulesOf c p.fam) .mangle .output p = mangleOutputSpec c p :=
+  mangle_output_correct c p d h
+
+/-- **Compiler correctness, mangle table, PREROUTING hook** (drop-invalid; TPROXY-mode inbound capture,
+    including the three rules inserted at the head of ISTIO_INBOUND). -/
+theorem mangle_prerouting_eq_spec (c : Config) (p : Packet) (d : Nat) (h : famOn c p.fam = true) :
+    evalTable (d + 2) (rulesOf c p.fam) .mangle .prerouting p = manglePreroutingSpec c p :=
+  mangle_prerouting_correct c p d h
+
+/-- **Compiler correctness, whole hook**: for every configuration (both interception modes, both
+    families, DNS capture, kube-virt interfaces, owner-group filters, drop-invalid) and every packet, the
+    fate of the packet under the installed rules (raw, mangle, nat in hook order) is the fate the policy
+    `specFate` prescribes. -/
+theorem fate_correct (c : Config) (p : Packet) (d : Nat) :
+    traverse (d + 2) (rulesOf c p.fam) p = specFate c p := by
+  cases hfam : famOn c p.fam
+  · -- the family has no rules at all
+    rcases famOn_false c p hfam with ⟨h1, h2⟩
+    simp only [traverse, specFate, h1, h2, if_true, List.foldl, stepTable, evalTable_nil]
+    cases hn : (p.ctstate != CtState.new) <;> simp [hn]
+  · have hv : (p.v6 && !c.enableIPv6) = false := by
+      unfold famOn at hfam
+      cases hv : p.v6 <;> cases he : c.enableIPv6 <;> simp [Packet.fam, hv, he] at hfam ⊢
+    simp only [traverse, specFate, hv, Bool.false_eq_true, if_false, List.foldl, stepTable, specStep,
+      raw_accepts c p.fam p.hook p (d + 1)]
+    simp only [Bool.or_self, Bool.false_eq_true, if_false, beq_self_eq_true, Bool.true_and]
+    cases hh : p.hook
+    · -- PREROUTING
+      have hm := mangle_prerouting_correct c p d hfam
+      simp only [show (Table.raw == Table.nat) = false from rfl, show (Table.mangle == Table.nat) = false from rfl,
+        Bool.false_and, Bool.false_eq_true, if_false, hm, mangleSpec, hh]
+      rcases manglePreroutingSpec_shape c p with hs | ⟨m, cm, hs | hs⟩
+      · simp [hs]
+      · have hn := nat_prerouting_correct c { p with mark := m, connmark := cm } d hfam
+        simp only [hs, Bool.or_self, Bool.false_eq_true, if_false]
+        by_cases hct : (p.ctstate != CtState.new) = true
+        · simp [hct]
+        · simp only [hct, Bool.false_eq_true, if_false]
+          rw [show rulesOf c p.fam = rulesOf c ({ p with mark := m, connmark := cm } : Packet).fam from rfl, hn]
+          simp only [natSpec, hh]
+          try rfl
+      · have hn := nat_prerouting_correct c { p with mark := m, connmark := cm } d hfam
+        simp only [hs, Bool.or_self, Bool.false_eq_true, if_false]
+        by_cases hct : (p.ctstate != CtState.new) = true
+        · simp [hct]
+        · simp only [hct, Bool.false_eq_true, if_false]
+          rw [show rulesOf c p.fam = rulesOf c ({ p with mark := m, connmark := cm } : Packet).fam from rfl, hn]
+          simp only [natSpec, hh]
+          try rfl
+    · -- OUTPUT
+      have hm := mangle_output_correct c p (d + 1) hfam
+      simp only [show (Table.raw == Table.nat) = false from rfl, show (Table.mangle == Table.nat) = false from rfl,
+        Bool.false_and, Bool.false_eq_true, if_false, hm, mangleSpec, hh]
+      rcases mangleOutputSpec_shape c p with ⟨m, hs⟩
+      have hn := nat_output_correct c { p with mark := m } d hfam
+      simp only [hs, Bool.or_self, Bool.false_eq_true, if_false]
+      by_cases hct : (p.ctstate != CtState.new) = true
+      · simp [hct]
+      · simp only [hct, Bool.false_eq_true, if_false]
+        rw [show rulesOf c p.fam = rulesOf c ({ p with mark := m } : Packet).fam from rfl, hn]
+        simp only [natSpec, hh]
+        try rfl
+
+
+theorem natSpec_ne_loop (c : Config) (p : Packet) : natSpec c p ≠ .loop := by
+  unfold natSpec natOutputSpec natPreroutingSpec
+  repeat' split
+  all_goals simp
+
+theorem mangleSpec_ne_loop (c : Config) (p : Packet) : mangleSpec c p ≠ .loop := by
+  unfold mangleSpec
+  split
+  · rcases mangleOutputSpec_shape c p with ⟨m, h⟩; simp [h]
+  · rcases manglePreroutingSpec_shape c p with h | ⟨m, cm, h | h⟩ <;> simp [h]
+
+theorem specStep_loop (c : Config) (f : Fate) (t : Table) (h : f.loop = false) : (specStep c f t).loop = false := by
+  unfold specStep
+  split
+  · exact h
+  · split
+    · exact h
+    · cases t
+      · simp [h]
+      · have hv := mangleSpec_ne_loop c f.pkt
+        generalize mangleSpec c f.pkt = v at hv ⊢
+        cases v <;> simp_all
+      · have hv := natSpec_ne_loop c f.pkt
+        generalize natSpec c f.pkt = v at hv ⊢
+        cases v <;> simp_all
+      · simp [h]
+
+/-- No generated rule set contains a chain cycle: the jump stack (two levels suffice) never overflows,
+    for any configuration, family, hook and packet. -/
+theorem never_chain_loop (c : Config) (p : Packet) (d : Nat) :
+    (traverse (d + 2) (rulesOf c p.fam) p).loop = false := by
+  rw [fate_correct]
+  unfold specFate
+  split
+  · rfl
+  · simp only [List.foldl]
+    exact specStep_loop _ _ _ (specStep_loop _ _ _ (specStep_loop _ _ _ rfl))
 
 end IstioModel.C20
